@@ -171,4 +171,47 @@ def r3_owned_borrowed(ctx):
         ctx.floor("R3", "in-place trim callers", n, 2, config=cfg)
 
 
-RULES = [("R1", r1_siblings), ("R2", r2_chunks), ("R3", r3_owned_borrowed)]
+def r4_cowref_arms(ctx):
+    """The string source hands the deserializer `CowRef::Input` data, the buffered source `CowRef::Slice` / `Owned`
+    data.  Wherever the deserializer matches on a CowRef, the three arms must put the bytes through the same
+    crate functions (they may differ only in how the result is wrapped or handed to the visitor)."""
+    for cfg, F in ctx.facts.items():
+        n = 0
+        for b in F.bodies:
+            bp = strip_generics(b.path)
+            if "::de::" not in bp or is_derive(b):
+                continue
+            if not any(t.get("k") == "switch" for blk in b.blocks for t in [blk.get("term") or {}]):
+                continue
+            if "CowRef" not in json.dumps(b.locals):
+                continue
+            try:
+                paths = ctx.paths(b)
+            except sym.PathBudget:
+                continue
+            arms = {}
+            for p in paths:
+                if ends(p) != "ret":
+                    continue
+                sw = [e for e in p if e[0] == "switch" and e[2][0] == "discr" and len(e[2]) > 3 and str(e[2][3]).endswith("utils::CowRef") and isinstance(e[3], int)]
+                if not sw:
+                    continue
+                v = sw[0][3]
+                after = p[p.index(sw[0]):]
+                sig = tuple(sorted({sym.short(strip_generics(e[2])) for e in after if e[0] == "call" and not isinstance(e[1], tuple) and isinstance(e[2], str) and ("quick_xml::" in e[2])
+                                    and not name_is(e[2], "from", "into", "from_residual", "branch")}))
+                arms.setdefault(v, set()).add(sig)
+            if len(arms) < 2:
+                continue
+            n += 1
+            names = {0: "Input", 1: "Slice", 2: "Owned"}
+            ref = arms.get(0)
+            for v, sigs in sorted(arms.items()):
+                if v == 0 or ref is None:
+                    continue
+                ctx.ob("R4", "%s:CowRef::%s" % (sym.short(bp), names.get(v, v)), sigs == ref,
+                       "the %s arm must use the same crate functions as the Input arm: %s vs %s" % (names.get(v, v), sorted(sigs), sorted(ref)), config=cfg)
+        ctx.floor("R4", "functions matching on a CowRef", n, 3, config=cfg)
+
+
+RULES = [("R1", r1_siblings), ("R2", r2_chunks), ("R3", r3_owned_borrowed), ("R4", r4_cowref_arms)]
